@@ -164,6 +164,7 @@ def limiterStep (st : LimiterSt) (toks : List String) : LimiterSt × String :=
         | "g" => some .garbage
         | "w" => some .noSrc
         | "m" => some (.src node)
+        | "h" => some (.src node)   -- a handshake packet carries its sender's id as well
         | _ => none
       match d with
       | none => (st, "bad-op")
@@ -172,7 +173,7 @@ def limiterStep (st : LimiterSt) (toks : List String) : LimiterSt × String :=
         let (r1, o) := r.inbound (nat! now) ip (nat! port) d
         let (f1, pb1) := (r1.filter, r1.pb)
         let st := { st with filt := some f1, pb := pb1, ips := insSorted ip st.ips,
-                            nodes := if kind == "m" then insSorted node st.nodes else st.nodes }
+                            nodes := if kind == "m" || kind == "h" then insSorted node st.nodes else st.nodes }
         let o := match o with | .dropped => "dropped" | .unrecognized => "unrec" | .inbound => "inbound"
         (st, s!"{o} {snapshot st}")
   | _ => (st, "bad-op")
